@@ -206,7 +206,8 @@ func (d *Decoder) DecodeBytes() ([]byte, error) {
 	}
 
 	nb := int(l)
-	if d.offset+n+nb > len(d.p) {
+	// compare against what is left: d.offset+n+nb can exceed the range of int where int has 32 bits
+	if nb > len(d.p)-d.offset-n {
 		return nil, io.ErrUnexpectedEOF
 	}
 	b := d.p[d.offset+n : d.offset+n+nb]
@@ -909,7 +910,8 @@ func (d *Decoder) DecodeNested(m interface{}) error {
 	if nb < 0 {
 		return fmt.Errorf("csproto: bad byte length %d at byte %d", nb, d.offset)
 	}
-	if d.offset+n+nb > len(d.p) {
+	// compare against what is left: d.offset+n+nb can exceed the range of int where int has 32 bits
+	if nb > len(d.p)-d.offset-n {
 		return io.ErrUnexpectedEOF
 	}
 	switch tv := m.(type) {
@@ -991,6 +993,10 @@ func (d *Decoder) Skip(tag int, wt WireType) ([]byte, error) {
 			// length is good
 		}
 
+		if l > uint64(len(d.p)-d.offset-n) {
+			// checked before adding: n + int(l) can exceed the range of int where int has 32 bits
+			return nil, io.ErrUnexpectedEOF
+		}
 		skipped = n + int(l)
 
 	case WireTypeFixed32:
